@@ -4,8 +4,9 @@
     A node is a left-hand side (a variable or a first-order derivative) or a state / free variable without an
     equation; nodes are numbered by the harness, `key v` is `str(v)` (the sort key handed to networkx).
     An equation is its left-hand side, the set `find_variables_and_derivatives([rhs])` as a list (in whatever order
-    Python's set iteration produced), the same set after `rhs.xreplace({Quantity: Float})` (OBSERVED from SymPy — the
-    simplifier is not modelled), and, for an ODE, the pair (state, free variable).
+    Python's set iteration produced; `Model.graph` sorts it by `str` before walking it), the same set after
+    `rhs.xreplace({Quantity: Float})` (OBSERVED from SymPy — the simplifier is not modelled), and, for an ODE, the pair
+    (state, free variable).
 
     All functions are structurally recursive (Kahn's loop and the ancestor closure run on fuel = number of nodes), so
     they reduce in the kernel and `decide` can evaluate them. -/
@@ -66,7 +67,20 @@ def hasEq (eqs : List Eqn) (v : Node) : Bool := eqs.any fun e => e.lhs == v
 /-- `graph.add_node(v, …)` for a node that may already be there (a dict insertion: position kept) -/
 def addNode (ns : List Node) (v : Node) : List Node := if v ∈ ns then ns else ns ++ [v]
 
-/-- the inner loop `for rhs in find_variables_and_derivatives([equation.rhs])` -/
+/-- Python's `sorted(xs, key=str)`, one step: a stable insertion — `x` (which came earlier) goes before the first
+    element whose key is not smaller -/
+def insertStr (key : Node → String) (x : Node) : List Node → List Node
+  | [] => [x]
+  | y :: ys => if key y < key x then y :: insertStr key x ys else x :: y :: ys
+
+/-- `sorted(find_variables_and_derivatives([equation.rhs]), key=str)`: stable sort by the `str` key (strings compare
+    by code point, in Python as in Lean) -/
+def sortStr (key : Node → String) : List Node → List Node
+  | [] => []
+  | x :: xs => insertStr key x (sortStr key xs)
+
+/-- the inner loop `for rhs in sorted(find_variables_and_derivatives([equation.rhs]), key=str)`, given the sorted
+    list -/
 def addRefs (sf : Node → Bool) (lhs : Node) : List Node → Graph → Except Err Graph
   | [], g => .ok g
   | r :: rs, g =>
@@ -80,19 +94,21 @@ def addOde (ode : Option (Node × Node)) (g : Graph) : Graph :=
   | some (s, f) => ⟨addNode (addNode g.nodes f) s, g.edges⟩
   | none => g
 
-/-- the second loop `for equation in self.equations` -/
-def addEqs (sf : Node → Bool) : List Eqn → Graph → Except Err Graph
+/-- the second loop `for equation in self.equations`; the references of each equation (a Python set, handed over in
+    whatever order: `e.refs`) are walked in the order of their `str` (since the `fix:` commit "graph nodes in a
+    reproducible order") -/
+def addEqs (key : Node → String) (sf : Node → Bool) : List Eqn → Graph → Except Err Graph
   | [], g => .ok g
   | e :: es, g =>
-      match addRefs sf e.lhs e.refs g with
+      match addRefs sf e.lhs (sortStr key e.refs) g with
       | .error x => .error x
-      | .ok g1 => addEqs sf es (addOde e.ode g1)
+      | .ok g1 => addEqs key sf es (addOde e.ode g1)
 
 def buildGraph (key : Node → String) (eqs : List Eqn) : Except Err Graph :=
   let lhss := eqs.map (·.lhs)
   if ¬ lhss.Nodup then .error .assertion                 -- assert len(graph.nodes) == equation_count
   else if ¬ (lhss.map key).Nodup then .error .assertion  -- assert len(set(str(x) …)) == equation_count
-  else addEqs (isStateOrFree eqs) eqs ⟨lhss, []⟩
+  else addEqs key (isStateOrFree eqs) eqs ⟨lhss, []⟩
 
 /-! ## `Model.graph_with_sympy_numbers` -/
 
